@@ -655,7 +655,7 @@ def d_node(t, dynamic=False):
     if k == "super":
         return "{{ block.super }}"
     if k == "include":
-        w = (" with" + G.d_kw(t[2])) if t[2] else ""
+        w = (" with" + G.d_kw_stock(t[2])) if t[2] else ""
         return '{%% include "%s"%s %%}' % (t[1], w)
     if k in ("text", "out"):
         return G.d_tpl(t, dynamic)
